@@ -81,7 +81,9 @@ class StatementSplitter:
                 self._in_case += 1
             return 1
 
-        if unified in ('END IF', 'END FOR', 'END WHILE'):
+        if (unified in ('END IF', 'END FOR', 'END WHILE')
+                and self._is_create and self._begin_depth > 0):
+            # lowers the level only where IF / FOR / WHILE raised it
             return -1
 
         # Default
